@@ -1061,12 +1061,74 @@ pub mod ss {
     pub open spec fn qc_inv(bs: BuildStates) -> bool { qc_except(bs, -1) }
     /// the liveness invariant with build x "in hand" (x = -1: none); opaque outside the lemmas below (keeps the scheduler's queries small)
     #[verifier::opaque]
-    pub open spec fn lq_x(g: Graph, bs: BuildStates, x: int) -> bool { live_inv(g, st_of(bs)) && qc_except(bs, x) }
+    pub open spec fn lq_x(g: Graph, bs: BuildStates, x: int) -> bool { live_inv(g, st_of(bs)) && qc_except(bs, x) && wacyc(g, st_of(bs)) }
     pub open spec fn lq(g: Graph, bs: BuildStates) -> bool { lq_x(g, bs, -1) }
     /// every build that lists f among its ordering inputs is among f's dependents (kept by Graph::add_build: unit graph)
     #[verifier::opaque]
     pub open spec fn deps_complete(g: Graph) -> bool { gs::deps_complete(g) }
-    /// "for every acyclic graph": a topological numbering of the steps along ordering inputs
+    /// the wanted steps are numbered so that every producer of an ordering input has a smaller number: the wanted part of the
+    /// graph is acyclic.  NOT assumed: want_build gives a step a number above all existing ones when it leaves Unknown, which
+    /// happens only after the producers of all its ordering inputs are wanted (the stack check turns a cycle into an error first)
+    pub open spec fn topo_w(g: Graph, st: Seq<BuildState>, t: spec_fn(int) -> nat) -> bool {
+        forall|b: int, j: int| 0 <= b < st.len() && st[b] != BuildState::Unknown && 0 <= j < gs::ordering_ins(gs::builds(g)[b]).len() ==>
+            match gs::files(g)[ix(#[trigger] gs::ordering_ins(gs::builds(g)[b])[j])].input { Some(p) => t(ix(p)) < t(b), None => true }
+    }
+    #[verifier::opaque]
+    pub open spec fn wacyc(g: Graph, st: Seq<BuildState>) -> bool { exists|t: spec_fn(int) -> nat| topo_w(g, st, t) }
+    pub open spec fn tmax(t: spec_fn(int) -> nat, n: nat) -> nat decreases n {
+        if n == 0 { 0 } else { let m = tmax(t, (n - 1) as nat); if t(n - 1) > m { t(n - 1) } else { m } }
+    }
+    pub proof fn lemma_tmax(t: spec_fn(int) -> nat, n: nat, i: int)
+        requires 0 <= i < n ensures t(i) <= tmax(t, n) decreases n
+    { if i < n - 1 { lemma_tmax(t, (n - 1) as nat, i); } }
+    /// a step that is already wanted changes state (or the graph keeps its ordering inputs): same numbering
+    pub proof fn lemma_wacyc_keep(g: Graph, st0: Seq<BuildState>, i: int, v: BuildState)
+        requires wacyc(g, st0), 0 <= i < st0.len(), st0[i] != BuildState::Unknown, v != BuildState::Unknown
+        ensures wacyc(g, st0.update(i, v))
+    {
+        reveal(wacyc);
+        let t = choose|t: spec_fn(int) -> nat| topo_w(g, st0, t);
+        let st1 = st0.update(i, v);
+        assert(topo_w(g, st1, t)) by {
+            assert forall|b: int, j: int| 0 <= b < st1.len() && st1[b] != BuildState::Unknown && 0 <= j < gs::ordering_ins(gs::builds(g)[b]).len() implies
+                (match gs::files(g)[ix(#[trigger] gs::ordering_ins(gs::builds(g)[b])[j])].input { Some(p) => t(ix(p)) < t(b), None => true }) by {
+                assert(st0[b] != BuildState::Unknown);
+            }
+        }
+    }
+    /// a step becomes wanted after the producers of all its ordering inputs: it gets a number above every existing one
+    pub proof fn lemma_wacyc_new(g: Graph, st0: Seq<BuildState>, i: int, v: BuildState)
+        requires wacyc(g, st0), closed_u(g, st0), closed_ord(g, st0, i), 0 <= i < st0.len(), st0[i] == BuildState::Unknown, v != BuildState::Unknown,
+            gs::wf_graph(g), st0.len() == gs::builds(g).len(),
+        ensures wacyc(g, st0.update(i, v))
+    {
+        reveal(wacyc);
+        let t = choose|t: spec_fn(int) -> nat| topo_w(g, st0, t);
+        let n = st0.len() as nat;
+        let top = tmax(t, n) + 1;
+        let t1 = |x: int| if x == i { top as nat } else { t(x) };
+        let st1 = st0.update(i, v);
+        assert(topo_w(g, st1, t1)) by {
+            assert forall|b: int, j: int| 0 <= b < st1.len() && st1[b] != BuildState::Unknown && 0 <= j < gs::ordering_ins(gs::builds(g)[b]).len() implies
+                (match gs::files(g)[ix(#[trigger] gs::ordering_ins(gs::builds(g)[b])[j])].input { Some(p) => t1(ix(p)) < t1(b), None => true }) by {
+                let f = gs::ordering_ins(gs::builds(g)[b])[j];
+                if gs::files(g)[ix(f)].input is Some {
+                    let p = gs::files(g)[ix(f)].input->Some_0;
+                    if b == i {
+                        assert(prod_wanted(g, st0, gs::ordering_ins(gs::builds(g)[i])[j]));
+                        assert(ix(p) != i);
+                        lemma_tmax(t, n, ix(p) as int);
+                    } else {
+                        assert(st0[b] != BuildState::Unknown);
+                        assert(closed_ord(g, st0, b));
+                        assert(prod_wanted(g, st0, gs::ordering_ins(gs::builds(g)[b])[j]));
+                        assert(ix(p) != i);
+                    }
+                }
+            }
+        }
+    }
+    /// "for every acyclic graph": a topological numbering of the steps along ordering inputs (kept for reference; not used any more)
     pub open spec fn topo_ok(g: Graph, t: spec_fn(int) -> nat) -> bool {
         forall|b: int, j: int| 0 <= b < gs::builds(g).len() && 0 <= j < gs::ordering_ins(gs::builds(g)[b]).len() ==>
             match gs::files(g)[ix(#[trigger] gs::ordering_ins(gs::builds(g)[b])[j])].input { Some(p) => t(ix(p)) < t(b), None => true }
@@ -1179,19 +1241,27 @@ pub mod ss {
     /// a transition of the build in hand (or of any build when none is in hand) that creates no Done build
     pub proof fn lemma_lq_set(g: Graph, b0: BuildStates, b1: BuildStates, id: BuildId, build: Build, state: BuildState, pushq: bool, x: int)
         requires lq_x(g, b0, x), x == -1 || x == ix(id), effect(b0, b1, id, build, state, pushq), ix(id) < st_of(b0).len(),
-            state != BuildState::Done,
+            state != BuildState::Done, state != BuildState::Unknown,
             state == BuildState::Want ==> !producers_done(g, st_of(b1), ix(id) as int),
             state == BuildState::Queued ==> pushq && first_key(pools_of(b0), pool_name(build)) >= 0,
+            st_of(b0)[ix(id)] == BuildState::Unknown ==> closed_u(g, st_of(b0)) && closed_ord(g, st_of(b0), ix(id) as int)
+                && gs::wf_graph(g) && st_of(b0).len() == gs::builds(g).len(),
         ensures lq(g, b1)
     {
         reveal(lq_x);
+        if st_of(b0)[ix(id)] == BuildState::Unknown { lemma_wacyc_new(g, st_of(b0), ix(id) as int, state); }
+        else { lemma_wacyc_keep(g, st_of(b0), ix(id) as int, state); }
         lemma_live_update(g, st_of(b0), ix(id) as int, state);
         lemma_qc_set(g, b0, b1, id, build, state, pushq);
     }
     pub proof fn lemma_fresh_lq(g: Graph, bs: BuildStates)
         requires fresh(bs)
         ensures lq(g, bs), closed_u(g, st_of(bs)), closed_v(g, st_of(bs))
-    { reveal(lq_x); }
+    {
+        reveal(lq_x); reveal(wacyc);
+        let t = |x: int| 0nat;
+        assert(topo_w(g, st_of(bs), t));
+    }
     // --- ready_dependents and the liveness invariant
     /// every Want build among the dependents of the first ko files of `outs` has been collected (opaque: stepped by the lemmas below)
     #[verifier::opaque]
@@ -1226,11 +1296,12 @@ pub mod ss {
     /// while the collected dependents are re-checked: a Want build waits for a producer unless its re-check is still to come
     #[verifier::opaque]
     pub open spec fn rd_pending(g: Graph, bs: BuildStates, rem: Seq<BuildId>) -> bool {
-        qc_inv(bs) && forall|b: int| 0 <= b < st_of(bs).len() && #[trigger] st_of(bs)[b] == BuildState::Want ==>
+        qc_inv(bs) && wacyc(g, st_of(bs)) && forall|b: int| 0 <= b < st_of(bs).len() && #[trigger] st_of(bs)[b] == BuildState::Want ==>
             !producers_done(g, st_of(bs), b) || rem.contains(BuildId(b as u32))
     }
     pub proof fn lemma_rd_begin(g: Graph, b0: BuildStates, b1: BuildStates, id: BuildId, deps: Set<BuildId>, rem: Seq<BuildId>)
         requires lq_x(g, b0, ix(id) as int), gs::wf_graph(g), st_of(b0).len() == gs::builds(g).len(), ix(id) < st_of(b0).len(),
+            st_of(b0)[ix(id)] != BuildState::Unknown,
             effect(b0, b1, id, gs::builds(g)[ix(id)], BuildState::Done, false), deps_complete(g),
             collected(g, st_of(b1), deps, gs::builds(g)[ix(id)].outs.ids@, gs::builds(g)[ix(id)].outs.ids@.len() as int),
             forall|x: BuildId| #[trigger] rem.contains(x) == deps.contains(x),
@@ -1240,6 +1311,7 @@ pub mod ss {
         let st0 = st_of(b0); let st1 = st_of(b1);
         let i = ix(id);
         let outs = gs::builds(g)[i].outs.ids@;
+        lemma_wacyc_keep(g, st0, i as int, BuildState::Done);
         lemma_qc_set(g, b0, b1, id, gs::builds(g)[i], BuildState::Done, false);
         assert forall|b: int| 0 <= b < st1.len() && #[trigger] st1[b] == BuildState::Want implies
             !producers_done(g, st1, b) || rem.contains(BuildId(b as u32)) by {
@@ -1290,11 +1362,13 @@ pub mod ss {
     }
     pub proof fn lemma_rd_ready(g: Graph, b0: BuildStates, b1: BuildStates, rem: Seq<BuildId>, d: BuildId, build: Build)
         requires rd_pending(g, b0, rem), rem.len() > 0, d == rem[0], ix(d) < st_of(b0).len(), st_of(b0).len() < 0x1_0000_0000,
+            st_of(b0)[ix(d)] == BuildState::Want,
             effect(b0, b1, d, build, BuildState::Ready, false),
         ensures rd_pending(g, b1, rem.drop_first())
     {
         reveal(rd_pending);
         lemma_qc_weaken(b0, ix(d) as int);
+        lemma_wacyc_keep(g, st_of(b0), ix(d) as int, BuildState::Ready);
         lemma_qc_set(g, b0, b1, d, build, BuildState::Ready, false);
         let st0 = st_of(b0); let st1 = st_of(b1);
         assert forall|b: int| 0 <= b < st1.len() && #[trigger] st1[b] == BuildState::Want implies
@@ -1317,7 +1391,7 @@ pub mod ss {
         ensures lq(g, bs)
     { reveal(rd_pending); reveal(lq_x); }
     /// everything the liveness argument needs from the graph survives a finished command's changes to it
-    pub open spec fn live_graph(g: Graph) -> bool { deps_complete(g) && acyclic(g) }
+    pub open spec fn live_graph(g: Graph) -> bool { deps_complete(g) }
     pub proof fn lemma_live_ext(g0: Graph, g1: Graph, bs: BuildStates, x: int)
         requires lq_x(g0, bs, x), closed_u(g0, st_of(bs)), live_graph(g0), gs::graph_ext(g0, g1), gs::wf_graph(g0), st_of(bs).len() == gs::builds(g0).len()
         ensures lq_x(g1, bs, x), closed_u(g1, st_of(bs)), live_graph(g1)
@@ -1336,9 +1410,10 @@ pub mod ss {
             assert(gs::files(g1)[ix(f)].dependents == gs::files(g0)[ix(f)].dependents);
             if b < st.len() && st[b] != BuildState::Unknown { assert(closed_ord(g0, st, b)); assert(prod_wanted(g0, st, gs::ordering_ins(gs::builds(g0)[b])[j])); }
         }
-        let t = choose|t: spec_fn(int) -> nat| topo_ok(g0, t);
-        assert(topo_ok(g1, t)) by {
-            assert forall|b: int, j: int| 0 <= b < gs::builds(g1).len() && 0 <= j < gs::ordering_ins(gs::builds(g1)[b]).len() implies
+        reveal(wacyc);
+        let t = choose|t: spec_fn(int) -> nat| topo_w(g0, st, t);
+        assert(topo_w(g1, st, t)) by {
+            assert forall|b: int, j: int| 0 <= b < st.len() && st[b] != BuildState::Unknown && 0 <= j < gs::ordering_ins(gs::builds(g1)[b]).len() implies
                 (match gs::files(g1)[ix(#[trigger] gs::ordering_ins(gs::builds(g1)[b])[j])].input { Some(p) => t(ix(p)) < t(b), None => true }) by {
                 assert(gs::builds(g1)[b].ins == gs::builds(g0)[b].ins);
                 assert(gs::wf_build(gs::builds(g0)[b]) && gs::build_ids_ok(g0, gs::builds(g0)[b]));
@@ -1350,7 +1425,7 @@ pub mod ss {
     }
     // --- C06(a): the scheduler cannot stall
     pub proof fn lemma_want_chain(g: Graph, st: Seq<BuildState>, t: spec_fn(int) -> nat, b: int, n: nat)
-        requires live_inv(g, st), closed_u(g, st), topo_ok(g, t), gs::wf_graph(g), st.len() == gs::builds(g).len(),
+        requires live_inv(g, st), closed_u(g, st), topo_w(g, st, t), gs::wf_graph(g), st.len() == gs::builds(g).len(),
             forall|i: int| 0 <= i < st.len() ==> (#[trigger] st[i]) == BuildState::Unknown || st[i] == BuildState::Want || st[i] == BuildState::Done,
             0 <= b < st.len(), st[b] == BuildState::Want, t(b) <= n,
         ensures false
@@ -1397,7 +1472,7 @@ pub mod ss {
         assert(eligible(pools_of(bs)[j].1));
     }
     pub proof fn lemma_no_stall(g: Graph, bs: BuildStates, r: crate::task::Runner)
-        requires bs_inv(g, bs), lq(g, bs), closed_u(g, st_of(bs)), acyclic(g), runner_inv(bs, r),
+        requires bs_inv(g, bs), lq(g, bs), closed_u(g, st_of(bs)), runner_inv(bs, r),
             crate::rs::live(r).len() == 0, bs.ready@.len() == 0, no_eligible(bs), no_failed(st_of(bs)), bs.total_pending > 0,
         ensures false
     {
@@ -1414,7 +1489,8 @@ pub mod ss {
         if forall|i: int| 0 <= i < st.len() ==> !is_pending()(i, #[trigger] st[i]) { lemma_count_none(st, is_pending()); }
         let b = choose|i: int| 0 <= i < st.len() && is_pending()(i, #[trigger] st[i]);
         assert(st[b] == BuildState::Want);
-        let t = choose|t: spec_fn(int) -> nat| topo_ok(g, t);
+        reveal(wacyc);
+        let t = choose|t: spec_fn(int) -> nat| topo_w(g, st, t);
         lemma_want_chain(g, st, t, b, t(b));
     }
     // --- the bundle Work::run carries: liveness invariant (build x in hand), closure of the wanted set, graph facts
